@@ -631,6 +631,23 @@ def _alternatives(el, name, text):
     return good
 
 
+def _bounds(el, name):
+    from vlib import instgen, xsdkit
+
+    tname = instgen.declared_type(el)
+    try:
+        typ = xsdkit.model().attributes(tname).get(name, (None,))[0]
+        fc = xsdkit.model().facets(typ)
+    except Exception:  # noqa
+        return []
+    out = []
+    for which in ("minInclusive", "maxInclusive"):
+        b = fc.get(which)
+        if b is not None and re.fullmatch(r"-?[0-9]+", b) and xsdkit.type_valid(typ, b)[0]:
+            out.append(b)
+    return out
+
+
 def run_api_lexical(unit, seed, acc):
     """'Every schema-valid lexical form met in a document can be read' - through the API READERS, whatever route they take to the
     attribute (a declared attribute, a hand-written helper doing its own int(), an XPath): for each row of the C09 table an
@@ -682,6 +699,25 @@ def run_api_lexical(unit, seed, acc):
                         acc.violation(
                             "api-reader-lexical-alternative:%s:%s" % (row.id, xsdkit.pfx_tag(e.tag) + "/@" + a.rsplit("}", 1)[-1]),
                             "%s = %s wrote %s/@%s=%r and reads %s; with the equivalent form %r the API reads %s" % (row.id, c09.short(v), xsdkit.pfx_tag(e.tag), a, tx, c09.short(r1), alt, c09.short(r2)),
+                            {"api_lexical": row.id, "value": c09.enc(v), "alt": alt, "seed": seed},
+                        )
+                # ... and the inclusive bounds of the attribute's schema type are forms a document may carry: the reader must
+                # report something (what it reports is C09's business), not raise
+                if e.tag.rsplit("}", 1)[1] in ("idx", "order", "ptCount") or not re.fullmatch(r"-?[0-9]+", tx):
+                    continue
+                for alt in _bounds(e, a):
+                    if alt == tx:
+                        continue
+                    e.set(a, alt)
+                    try:
+                        r2 = c09.read(row, obj)
+                    finally:
+                        e.set(a, tx)
+                    acc.count("api_lexical:schema_bounds_read")
+                    if isinstance(r2, c09.Raises):
+                        acc.violation(
+                            "api-reader-raises-on-schema-bound:%s:%s" % (row.id, xsdkit.pfx_tag(e.tag) + "/@" + a.rsplit("}", 1)[-1]),
+                            "%s: with %s/@%s=%r (a bound of the attribute's schema type) the API reader raises %s" % (row.id, xsdkit.pfx_tag(e.tag), a, alt, r2),
                             {"api_lexical": row.id, "value": c09.enc(v), "alt": alt, "seed": seed},
                         )
             acc.case(desc=("api_lexical", row.id, k), nontrivial=bool(wrote), cls="api-reader")
